@@ -156,7 +156,21 @@ class Queue(mp_Queue):
                             return
 
                         # serialize the data before acquiring the lock
-                        obj_ = dumps(obj, reducers=reducers)
+                        try:
+                            obj_ = dumps(obj, reducers=reducers)
+                        except BaseException as e:
+                            # A failure to serialize obj concerns this object
+                            # only. Handle it here so that it is mistaken
+                            # neither for an empty buffer (IndexError below)
+                            # nor for a broken pipe (errno EPIPE below),
+                            # whatever exception the pickling raised.
+                            if util.is_exiting():
+                                util.info(f"error in queue thread: {e}")
+                                return
+                            queue_sem.release()
+                            onerror(e, obj)
+                            del obj
+                            continue
                         if wacquire is None:
                             send_bytes(obj_)
                         else:
